@@ -10,7 +10,7 @@ TEST = "TestVerifHarness_NodeLoss"
 HDIRS = ["nodeloss"]
 COQ_TARGETS = ["Run/Run_NodeLoss.vo"]
 META = {
-    "text": "Theorems (Properties/C18.v) over Gallina models of (1) the client listener's reconnect decision (client/listener.go AcceptWithContext, plus the pinned pre-fix decision for the refutation of D4) and the accept loop around it, (2) Server.Shutdown (server/server.go) as the real step order interleaved with ALL schedules of the upstream handlers' asynchronous exits, (3) the leave reaching a notified peer composed over the shared gossip and syncer models (LeaveLocal, ApplyDelta of the leaver's full local delta, OnLeave, LookupEndpoint) for every leaver state, peer view, routing table and endpoint, the crash counterpart (detector verdict -> OnUnreachable -> not routed to), and (4) recovery on the survivors as a composition statement over lookup_candidates and the local registry. The models are tied to the code by an in-process cluster of three REAL server nodes (server.NewServer/Start, 40 ms gossip interval), real client listeners with stamping HTTP upstreams behind a one-URL TCP front, and requests to every survivor's proxy port: a node is lost gracefully (Server.Shutdown), by a crash (all its sockets closed abruptly, no Leave) or by a crash in the middle of its shutdown, idle / with upstreams connected / with requests in flight; an independent python monitor evaluates the property on the recorded timeline and the recorded states are replayed on the models inside Coq.",
+    "text": "Theorems (Properties/C18.v) over Gallina models of (1) the client listener's reconnect decision (client/listener.go AcceptWithContext, plus the pinned pre-fix decision for the refutation of D4) and the accept loop around it, (2) Server.Shutdown (server/server.go) as the real step order interleaved with ALL schedules of the upstream handlers' asynchronous exits, (3) the leave reaching a notified peer composed over the shared gossip and syncer models (LeaveLocal, ApplyDelta of the leaver's full local delta, OnLeave, LookupEndpoint) for every leaver state, peer view, routing table and endpoint, the crash counterpart (detector verdict -> OnUnreachable -> not routed to), and (4) recovery on the survivors as a composition statement over lookup_candidates and the local registry. The models are tied to the code by an in-process cluster of three REAL server nodes (server.NewServer/Start, 40 ms gossip interval; optionally three more live nodes, so that the leaver cannot notify every peer itself, or a fourth node that left / crashed earlier and is still remembered), real client listeners with stamping HTTP upstreams behind a one-URL TCP front, and requests to every survivor's proxy port: a node is lost gracefully (Server.Shutdown), by a crash (all its sockets closed abruptly, no Leave) or by a crash in the middle of its shutdown, idle / with upstreams connected / with requests in flight; an independent python monitor evaluates the property on the recorded timeline and the recorded states are replayed on the models inside Coq.",
     "note": "PARTIAL. Proved: the decision logic, the shutdown bookkeeping under every schedule, that a notified peer marks the leaver left and LookupEndpoint never returns it, that a detected crash has the same effect, and the recovery composition under stated settledness hypotheses. Observed only (not proved): timing (Shutdown within the grace period, detector verdict, gossip convergence), process death (a crash is simulated in-process by closing every socket of the node), real reconnection (dial, yamux/websocket error reporting), and that every upstream handler returns after cancellation. Trusted: Coq kernel+VM, the hand-written models, the Go harness and the python translation.",
     "technique": "Coq proof (case analysis of the decision; invariant over all schedules of the shutdown sequence; composition over the proved gossip/syncer models) + model/implementation correspondence by replaying states recorded on a real 3-node cluster + independent timeline monitor",
 }
